@@ -135,11 +135,12 @@ def rule_r3(chk, db):
 
 def rule_r4(chk, db):
     """chunk reader: the bytes left over by one read are the starting bytes of the next"""
-    gens = [b for b in db.grep("transform_stream::yielder::Yielder") if b.crate == "s3s" and b.name.startswith(CH)]
+    gens = [inline.inlined(db, b) for b in db.grep("transform_stream::yielder::Yielder") if b.crate == "s3s" and b.name.startswith(CH) and
+            any(_is_yield(t) for _, t in b.calls())]
     gens = [b for b in gens if any(short(callee_def(t)) in ("read_meta_bytes", "read_data") for _, t in b.calls())]
     if len(gens) != 1:
         raise AnchorMissing("chunk reader generator: %d candidates" % len(gens))
-    g = inline.inlined(db, gens[0])
+    g = gens[0]
     reads = [(bi, t) for bi, t in g.calls() if short(callee_def(t)) in ("read_meta_bytes", "read_data") and callee_def(t).startswith(CH)]
     chk.floor("R4", len(reads), 2, "read_meta_bytes / read_data call sites in the chunk reader")
     read_blocks = {bi for bi, _ in reads}
